@@ -22,3 +22,32 @@ package unserializers
 //@ table cdxExtRefTypeRoundTrip [C02]: forall t sbom.ExternalReference_ExternalReferenceType :: 0 <= t && t <= 60 && (serializers.CDX.protobomExtRefTypeToCdxType(nil, t) != "other" || t == 31) ==> CDX.cdxExtRefTypeToProtobomType(nil, serializers.CDX.protobomExtRefTypeToCdxType(nil, t)) == t
 
 //@ table cdxComponentTypeRoundTrip [C02]: forall p sbom.Purpose :: (p == 1 || p == 14 || p == 16 || p == 5 || p == 24 || p == 21 || p == 7 || p == 8 || p == 13 || p == 12 || p == 17 || p == 6) ==> proj(serializers.CDX.purposeToComponentType(nil, p), 1) == nil && CDX.componentTypeToPurpose(nil, proj(serializers.CDX.purposeToComponentType(nil, p), 0)) == p
+
+// ---------------------------------------------------------------------------
+// C04: parsers are total. The decoded native document is an ARBITRARY value of
+// its Go type (any pointer may be nil, any slice any length, pointer elements
+// may be nil): that is the trusted contract of the third-party decoders.
+// ---------------------------------------------------------------------------
+
+//@ func CDX.Unserialize
+//@   props C04
+//@   assigns \nothing
+//@   invariant L1: doc != nil && fresh(doc) && doc.NodeList != nil && fresh(doc.NodeList) && sbom.validNL(doc.NodeList) && doc.Metadata != nil
+//@   ensures [C04:unserialize:oneOf] (result1 == nil) != (result0 == nil)
+//@   ensures [C04:unserialize:complete] result1 == nil ==> result0.Metadata != nil && result0.NodeList != nil
+
+//@ func CDX.componentToNodeList
+//@   props C04
+//@   requires component != nil && cc != nil
+//@   assigns cc.*
+//@   owns
+//@   ensures [C04:componentToNodeList:oneOf] (result1 == nil) != (result0 == nil)
+//@   ensures [C04:componentToNodeList:valid] result1 == nil ==> sbom.validNL(result0) && fresh(result0)
+//@   invariant L0: sbom.validNL(nl) && fresh(nl) && node != nil
+//@   invariant L0: (arr(nl.Nodes) == nil || fresh(arr(nl.Nodes))) && (arr(nl.Edges) == nil || fresh(arr(nl.Edges))) && (arr(nl.RootElements) == nil || fresh(arr(nl.RootElements)))
+
+//@ func SPDX23.Unserialize
+//@   props C04
+//@   assigns \nothing
+//@   ensures [C04:unserialize:oneOf] (result1 == nil) != (result0 == nil)
+//@   ensures [C04:unserialize:complete] result1 == nil ==> result0.Metadata != nil && result0.NodeList != nil
